@@ -60,9 +60,9 @@ def rename_spec(sp, pre, name):
 
 
 @st.composite
-def stage_spec(draw, prefix, name, quad=False, horizons=("num", "free")):
+def stage_spec(draw, prefix, name, quad=False, horizons=("num", "free"), allow_alg=False):
     tk = {"prefix": prefix, "max_params": 1, "max_vars": 1, "shapes": [(1, 1), (1, 1), (2, 1)]}
-    sp = draw(gen.base_ocp(horizons=horizons, table_kw=tk, allow_alg=False, quad=quad, maxN=3, maxM=2, degrees=(1, 2, 3),
+    sp = draw(gen.base_ocp(horizons=horizons, table_kw=tk, allow_alg=allow_alg, alg_odds=(1, 2), quad=quad, maxN=3, maxM=2, degrees=(1, 2, 3),
                            grid_kw={"classes": ("uniform", "geometric", "function"), "localize": False}))
     sp["name"] = name
     sp["objective"] = [draw(c05.objective_term(sp)) for _ in range(draw(st.integers(1, 2)))]
@@ -113,7 +113,18 @@ def strategy_(draw):
         master["coupling"] = coupling
         master["parent_objective"] = pobj
         return {"kind": kind, "spec": master, "rng": draw(st.integers(0, 2**31 - 1))}
-    tpl = draw(stage_spec("", "tpl", quad=True, horizons=("num", "free")))
+    tpl = draw(stage_spec("", "tpl", quad=True, horizons=("num", "free"), allow_alg=True))
+    # features a clone has to carry over: scales (of states and of set_der), algebraic equations, inf_inert operands with placeholders
+    plain = [d for d in tpl["states"] if not d.get("quad")]
+    if tpl.get("der") and draw(st.booleans()):
+        d = draw(st.sampled_from(plain))
+        d["scale"] = draw(st.sampled_from([0.5, 4.0]))
+        tpl["der_scale"] = {d["name"]: draw(st.sampled_from([2.0, 10.0]))}
+        tpl["dyn_concat"] = False
+    scalar_states = [d for d in plain if d["rows"] * d["cols"] == 1]       # grid='inf' constraints re-interpret whole scalar states only
+    if scalar_states and tpl["method"]["cls"] != "DC" and tpl["method"].get("intg") == "rk" and tpl.get("der") and draw(st.integers(0, 2)) == 0:
+        xl = gen.leaves_of(scalar_states)[0]
+        tpl["constraints"].append({"grid": "inf", "lhs": [["-", xl, ["inert", ["at_t0", xl]]]], "rel": "<=", "rhs": [E.C(draw(st.sampled_from([0.5, 1.0])))]})
     xs = [d for d in tpl["states"] if not d.get("quad") and d["cols"] == 1]
     if xs and tpl["method"]["cls"] != "DC" and draw(st.booleans()):
         tpl["initial"] = [[xs[0]["name"], ["num", draw(gen.small())]]]
@@ -147,6 +158,12 @@ def tpl_features(tpl):
         f.append("t-in-dynamics")
     if any(E.has_op(e, "int") for e in tpl["objective"]):
         f.append("integral")
+    if tpl.get("alg"):
+        f.append("DAE")
+    if tpl.get("der_scale"):
+        f.append("set_der scale")
+    if any(c.get("grid") == "inf" for c in tpl.get("constraints", [])):
+        f.append("inf constraint with inf_inert(at_t0)")
     return f
 
 
@@ -396,6 +413,17 @@ def check_clone(case, ctx):
     dl_a, dl_r = declared_lists(BA.stages["tpl"]), declared_lists(ref_tpl.stages["tpl"])
     if dl_a != dl_r:
         fails.append(Fail("template-changed", feats, {k: [dl_a[k], dl_r[k]] for k in dl_a if dl_a[k] != dl_r[k]}))
+    if fails:
+        return fails
+    # one more clone after the composite has been transcribed: the next query sees it (as many variables, parameters and rows as a
+    # freshly written OCP with that extra clone)
+    BA.ocp.stage(BA.stages["tpl"], t0=0.25, T=1.25)
+    A2 = copy.deepcopy(A)
+    A2["substages"].append({"name": "c_late", "template": "tpl", "t0": ["num", 0.25], "T": ["num", 1.25]})
+    n_late, n_fresh = NLP(BA.ocp), NLP(build(A2).ocp)
+    if (n_late.nx, n_late.np_, n_late.ng) != (n_fresh.nx, n_fresh.np_, n_fresh.ng):
+        fails.append(Fail("late-clone-not-in-composite", feats, {"after_late_clone": [n_late.nx, n_late.np_, n_late.ng], "fresh_with_that_clone": [n_fresh.nx, n_fresh.np_, n_fresh.ng],
+                                                             "before": [nA.nx, nA.np_, nA.ng]}))
     return fails
 
 
